@@ -244,6 +244,10 @@ fn failed_is_some(f: &Option<(Violation, String)>) -> bool {
 
 /// re-execute one persisted schedule
 fn replay_one(w: &Workload, schedule: &str) -> Option<Violation> {
+    if schedule.trim().is_empty() {
+        // no schedule was recorded (the exploration gave up on a run that never ends): nothing to replay step by step
+        return None;
+    }
     let slot: Shared = Arc::new(Mutex::new(Slot::default()));
     let body = scenario(w, &slot);
     let sched = schedule.to_string();
@@ -349,7 +353,22 @@ fn real_main(args: &[String], report: &Report) -> i32 {
                 return 2;
             }
         };
-        return match replay_one(&rf.workload, &rf.schedule) {
+        // First the recorded schedule, step by step. A violation that does not depend on the schedule at all — a
+        // call that never returns — has no schedule of finite length worth recording (the exploration gave up after
+        // a million steps); for it, and only when the exact replay shows nothing, the workload is explored again
+        // under the scheduler and seed recorded in the file: still a pure function of the file and the code.
+        let exact = replay_one(&rf.workload, &rf.schedule);
+        let replayed = match exact {
+            Some(v) => Some(v),
+            None if rf.violation.signature == "did-not-return-within-step-bound" || rf.violation.signature == "deadlock" => {
+                let scratch = format!("/dev/shm/rre-verif-replay-{}", std::process::id());
+                let r = explore(&rf.property, &rf.workload, rf.scheduler, rf.scheduler_seed, 40, &scratch);
+                let _ = std::fs::remove_dir_all(&scratch);
+                r.failed.map(|(v, _)| v)
+            }
+            None => None,
+        };
+        return match replayed {
             Some(v) => {
                 if confirm {
                     return if v.clause == rf.violation.clause || rf.violation.clause.ends_with(&v.clause) { 1 } else { 3 };
